@@ -348,3 +348,26 @@ Theorem C04_probing_file_table_invariants : forall buckets n V (t : atable) M sl
   length buckets = (n - 1)%nat -> (V <= Z.of_nat slots)%Z -> probing_image t slots buckets = Some img ->
   TInv n (file_ptable buckets n V (parse_probing slots buckets (img ++ rest))) M.
 Proof. exact probing_file_table_invariants. Qed.
+
+(* a probing file and a trie / array-trie file of the same ARPA model, each loaded back, return the same probability for every history and
+   every vocabulary word (C03_memory_structures_equal_probabilities for the loaded memories) *)
+Local Open Scope Z_scope.
+Theorem C04_loaded_files_equal_probabilities :
+  forall buckets (array : bool) cfg N V (tp tt : atable) pz M slots img rest1 rest2,
+  (2 <= N)%nat -> 0 <= V < 2 ^ 32 -> 0 <= cfg ->
+  TInv N (Defs.alookup tp) M -> NoDup (map fst tp) -> (forall w, Defs.alookup tp [w] <> None <-> Z.of_N w < V) ->
+  (forall k e, Defs.alookup tp k = Some e -> - 2 ^ 24 < e_prob e <= 0 /\ - 2 ^ 24 < e_bo e < 2 ^ 24) ->
+  (forall k e, Defs.alookup tp k = Some e -> length k = N -> e_bo e = 0) ->
+  (forall j, (2 <= j <= N)%nat -> (length (order_entries tp j) < nth (j - 2) buckets 0)%nat) ->
+  (forall k, over_vocab N V k -> hash_key k <> 0) ->
+  (forall k1 k2, over_vocab N V k1 -> over_vocab N V k2 -> hash_key k1 = hash_key k2 -> k1 = k2) ->
+  length buckets = (N - 1)%nat -> V <= Z.of_nat slots -> probing_image tp slots buckets = Some img ->
+  TInv N (Defs.alookup tt) M -> NoDup (map fst tt) -> (forall w, Defs.alookup tt [w] <> None <-> Z.of_N w < V) ->
+  (forall k e, Defs.alookup tt k = Some e -> - 2 ^ 24 < e_prob e < 2 ^ 24 /\ - 2 ^ 24 < e_bo e < 2 ^ 24) ->
+  (forall k e, Defs.alookup tt k = Some e -> (2 <= length k)%nat -> e_prob e <= 0) ->
+  (forall k e, Defs.alookup tt k = Some e -> length k = N -> e_bo e = 0) ->
+  Z.of_nat (N * length tt) < 2 ^ 57 ->
+  forall ctx w, Z.of_N w < V ->
+  r_prob (fst (full_score_forgot N (file_ptable buckets N V (parse_probing slots buckets (img ++ rest1))) Probing ctx w)) =
+  r_prob (fst (full_score_forgot N (file_table array cfg N V (trie_counts N tt) (C03.TrieImage.trie_image array cfg N tt pz ++ rest2)) Trie ctx w)).
+Proof. exact loaded_files_equal_probabilities. Qed.
